@@ -2056,7 +2056,7 @@ func buildRequestBodyType(body, att *expr.AttributeExpr, e *expr.HTTPEndpointExp
 		desc = body.Description
 	}
 	var init *InitData
-	if !svr && att.Type != expr.Empty && needInit(body.Type) {
+	if !svr && att.Type != expr.Empty && (needInit(body.Type) || isInlineObject(body.Type)) {
 		var (
 			name    string
 			desc    string
@@ -2181,7 +2181,7 @@ func buildResponseBodyType(body, att *expr.AttributeExpr, loc *codegen.Location,
 
 	name = body.Type.Name()
 	ref = sd.Scope.GoTypeRef(body)
-	mustInit = att.Type != expr.Empty && needInit(body.Type)
+	mustInit = att.Type != expr.Empty && (needInit(body.Type) || isInlineObject(body.Type))
 
 	AddMarshalTags(body, make(map[string]struct{}))
 
@@ -2828,6 +2828,15 @@ func AddMarshalTags(att *expr.AttributeExpr, seen map[string]struct{}) {
 
 // needInit returns true if and only if the given type is or makes use of user
 // types.
+// isInlineObject returns true if dt is an object defined inline. The service
+// struct of such an object has no JSON tags: a body of that type must be
+// converted to the HTTP body type, whose fields are tagged with the attribute
+// names, before being encoded.
+func isInlineObject(dt expr.DataType) bool {
+	_, ok := dt.(*expr.Object)
+	return ok
+}
+
 func needInit(dt expr.DataType) bool {
 	if dt == expr.Empty {
 		return false
